@@ -187,8 +187,8 @@ def generated_rules(F, R, which):
     n = 0
     for nm, m in sorted(man.items()):
         d = m.get("def")
-        if not d:
-            continue
+        if not d or d.get("generic"):
+            continue   # instances of generic definitions: their generated bodies are polymorphic; decided are their constants / layouts (E1)
         ty = F.tymarks.get("__ty_" + nm)
         cs = F.consts.get(ty, {})
         n += 1
